@@ -24,13 +24,14 @@ type Ctx struct {
 	Pkgs      []*packages.Package
 	Funcs     map[string]*ssa.Function // key: pkgpath::relname
 	Contracts map[string]*Contract     // key: pkgpath::relname  or extern full name
-	Pures     map[string]*PureDef
+	Pures     map[string][]*PureDef
 	Ghosts    map[string]*GhostDef
 	FieldAnnos map[string]*fieldMode // key: structkey|field
 	LockInvs  map[string]*LockInv     // key: structkey
 	LockInvPkg map[string]*types.Package
 	Lemmas    []*Lemma
 	Axioms    []Clause
+	ChanInvs  map[string]*ChanInv // structkey|field
 	LemmaPkg  map[string]*packages.Package
 	SpecFiles []*SpecFile
 	famSorts  map[string]Sort
@@ -131,7 +132,7 @@ func Load(dir string, patterns []string) (*Ctx, error) {
 		Pkgs:       pkgs,
 		Funcs:      map[string]*ssa.Function{},
 		Contracts:  map[string]*Contract{},
-		Pures:      map[string]*PureDef{},
+		Pures:      map[string][]*PureDef{},
 		Ghosts:     map[string]*GhostDef{},
 		FieldAnnos: map[string]*fieldMode{},
 		LockInvs:   map[string]*LockInv{},
@@ -149,6 +150,7 @@ func Load(dir string, patterns []string) (*Ctx, error) {
 		dispatch: map[string]types.Type{},
 		FindingResidual: map[string]string{},
 		initStates: map[*ssa.Package]*State{},
+		ChanInvs: map[string]*ChanInv{},
 		assigned: map[*ssa.Function]map[ast.Expr]string{},
 	}
 	if len(pkgs) > 0 {
@@ -291,7 +293,16 @@ func (c *Ctx) addSpecFile(sf *SpecFile, p *packages.Package) error {
 		key := ct.Key
 		if p != nil && !ct.Extern {
 			key = p.PkgPath + "::" + ct.Key
-			if strings.HasPrefix(ct.Key, "iface ") {
+			if strings.HasPrefix(ct.Key, "field ") {
+				// contract of the function values stored in a struct field: field T.f
+				parts := strings.Split(strings.TrimPrefix(ct.Key, "field "), ".")
+				obj := p.Types.Scope().Lookup(parts[0])
+				if len(parts) != 2 || obj == nil {
+					return fmt.Errorf("CONTRACT-ERROR %s: bad field contract %q", sf.Path, ct.Key)
+				}
+				key = "field:" + c.Reg.TypeKey(obj.Type()) + "|" + parts[1]
+				ct.Opts["iface"] = "true"
+			} else if strings.HasPrefix(ct.Key, "iface ") {
 				// interface method contract of a repo interface: iface Name.Method
 				key = "(" + p.PkgPath + "." + strings.Replace(strings.TrimPrefix(ct.Key, "iface "), ".", ").", 1)
 				ct.Extern = false
@@ -309,10 +320,10 @@ func (c *Ctx) addSpecFile(sf *SpecFile, p *packages.Package) error {
 		c.Contracts[key] = ct
 	}
 	for _, pd := range sf.Pures {
-		c.Pures[pd.Name] = pd
 		if p != nil {
-			c.LemmaPkg["pure:"+pd.Name] = p
+			pd.Pkg = p.Types
 		}
+		c.Pures[pd.Name] = append(c.Pures[pd.Name], pd)
 	}
 	for _, g := range sf.Ghosts {
 		c.Ghosts[g.Name] = g
@@ -322,7 +333,12 @@ func (c *Ctx) addSpecFile(sf *SpecFile, p *packages.Package) error {
 	}
 	// axioms: assumed facts about dependencies (extern specs) or definitions of ghost
 	// functions (contract files); each is evaluated where its identifiers resolve
-	c.Axioms = append(c.Axioms, sf.Axioms...)
+	for _, ax := range sf.Axioms {
+		if p != nil {
+			ax.Pkg = p.Types
+		}
+		c.Axioms = append(c.Axioms, ax)
+	}
 	for _, l := range sf.Lemmas {
 		c.Lemmas = append(c.Lemmas, l)
 		if p != nil {
@@ -370,6 +386,14 @@ func (c *Ctx) addSpecFile(sf *SpecFile, p *packages.Package) error {
 					fm.Deep = fa.Deep[fn]
 				}
 			}
+		}
+		for _, ci := range sf.ChanInvs {
+			obj := p.Types.Scope().Lookup(ci.Struct)
+			if obj == nil {
+				return fmt.Errorf("CONTRACT-ERROR %s: no type %q", sf.Path, ci.Struct)
+			}
+			ci.Pkg = p.Types
+			c.ChanInvs[c.Reg.TypeKey(obj.Type())+"|"+ci.Field] = ci
 		}
 		for _, li := range sf.LockInvs {
 			obj := p.Types.Scope().Lookup(li.Struct)
